@@ -328,6 +328,20 @@ Theorem C05_cholesky_route : forall (F : Type) (A : Arith F) (eigh : nat -> mat 
   ROk (chol_iql A bs [seq (false, n, shortcut_root A n g) | g <- gs] R logdet reduce).
 Proof. exact cholesky_route. Qed.
 
+(* The stand-alone entry point LinearOperator.inv_quad / linear_operator.inv_quad goes through InvQuad, whose OWN selector
+   (functions/_inv_quad.py _solve) takes the Cholesky solve iff fast_computations.solves is off, or fast_computations.log_prob
+   is off, or n <= max_cholesky_size - the values are then the dense ones whatever the CG settings are.  It is the selector
+   of Solve (functions/_solve.py) plus the log_prob clause: the two differ exactly when log_prob is off (seeded regression C05/10
+   swapped one for the other). *)
+Theorem C05_invquad_route : forall (F : Type) (A : Arith F) (S : settings F) (n : nat) (gs : seq (gmember F)) (Rs : seq (cols F)),
+  [|| ~~ s_solves S, ~~ s_log_prob S | (n <= s_max_cholesky_size S)%N] ->
+  invquad_forward A S n gs Rs = ROk [seq [seq dense_iq_col A n (g_M gr.1) r | r <- gr.2] | gr <- zip gs Rs].
+Proof. exact invquad_route. Qed.
+
+Theorem C05_invquad_selector_vs_solve : forall (F : Type) (S : settings F) (n : nat),
+  invquad_chol_solve S n = solve_chol_solve S n || ~~ s_log_prob S.
+Proof. exact invquad_selector_vs_solve. Qed.
+
 (* The cached-triangular-root shortcut (inv_quad_logdet lines 1700-1708): on the Cholesky route the factor handed to
    CholLinearOperator is the cached root_decomposition entry when the cache holds a (lower) TriangularLinearOperator root -
    transplanted by cat_rows / add_low_rank or left by an earlier root_decomposition() - and self.cholesky() otherwise. *)
